@@ -165,7 +165,7 @@ func rawState(l *sqlLexer) stateFn {
 				return oneLineCommentState
 			}
 		case utf8.RuneError:
-			if width != replacementcharacterwidth {
+			if width == 0 {
 				if l.pos-l.start > 0 {
 					l.parts = append(l.parts, l.src[l.start:l.pos])
 					l.start = l.pos
@@ -193,7 +193,7 @@ func singleQuoteState(l *sqlLexer) stateFn {
 			}
 			l.pos += width
 		case utf8.RuneError:
-			if width != replacementcharacterwidth {
+			if width == 0 {
 				if l.pos-l.start > 0 {
 					l.parts = append(l.parts, l.src[l.start:l.pos])
 					l.start = l.pos
@@ -221,7 +221,7 @@ func doubleQuoteState(l *sqlLexer) stateFn {
 			}
 			l.pos += width
 		case utf8.RuneError:
-			if width != replacementcharacterwidth {
+			if width == 0 {
 				if l.pos-l.start > 0 {
 					l.parts = append(l.parts, l.src[l.start:l.pos])
 					l.start = l.pos
@@ -247,7 +247,7 @@ func backtickState(l *sqlLexer) stateFn {
 			}
 			l.pos += width
 		case utf8.RuneError:
-			if width != replacementcharacterwidth {
+			if width == 0 {
 				if l.pos-l.start > 0 {
 					l.parts = append(l.parts, l.src[l.start:l.pos])
 					l.start = l.pos
@@ -295,7 +295,7 @@ func escapeStringState(l *sqlLexer) stateFn {
 			}
 			l.pos += width
 		case utf8.RuneError:
-			if width != replacementcharacterwidth {
+			if width == 0 {
 				if l.pos-l.start > 0 {
 					l.parts = append(l.parts, l.src[l.start:l.pos])
 					l.start = l.pos
@@ -316,7 +316,7 @@ func oneLineCommentState(l *sqlLexer) stateFn {
 			// the parser ends a one-line comment at the line feed only and knows no escapes in it
 			return rawState
 		case utf8.RuneError:
-			if width != replacementcharacterwidth {
+			if width == 0 {
 				if l.pos-l.start > 0 {
 					l.parts = append(l.parts, l.src[l.start:l.pos])
 					l.start = l.pos
@@ -344,7 +344,7 @@ func multilineCommentState(l *sqlLexer) stateFn {
 			return rawState
 
 		case utf8.RuneError:
-			if width != replacementcharacterwidth {
+			if width == 0 {
 				if l.pos-l.start > 0 {
 					l.parts = append(l.parts, l.src[l.start:l.pos])
 					l.start = l.pos
